@@ -58,7 +58,7 @@ func main() {
 			r.Set("model_paths", cmd.VerifC20ModelPaths())
 			r.Assume("worker closure and main-loop body of (*Runner).Run are executed as paths extracted from the CFG of cmd/run.go of the current tree (tool checks/C20/tool): every path calls the real reloadManager / run.go primitives in source order; conditions the model cannot evaluate (control-plane construction, listeners, config parsing) are explored both ways (over-approximation), conditions on the real manager / request / wait result are evaluated for real")
 			r.Assume("process-exit paths (termination signals, Fatalln after a failed rollback, `Listener failed; exiting`) are listed but not executed: the statement speaks about a dae that keeps running")
-			r.Assume("the previous generation is a zero control.ControlPlane (Close already run); the real startControlPlaneRetirement goroutine runs on it, its end is gated through the oldCancel callback")
+			r.Assume("the previous generation is a zero control.ControlPlane; the real startControlPlaneRetirement goroutine runs on it including the real Close(); 'retired' is observed inside Close() (the function planted in the plane's cancel field, called first by Close) where the scheduler decides how long the teardown lasts; the part of Close after that point and RunReloadRetirementCleanup (successor is nil) are not separately observable")
 			r.Assume("the progress file is an in-memory cell behind the setRunSignalProgress/getRunSignalProgress seams (each access is one scheduling point); resetReloadProxyRuntimeState is replaced by a counter")
 			r.Assume("exploration is partitioned: in every scenario one request is explored through ALL alternatives of its class (fail / staged / nonstaged), the other requests through one canonical representative; every class takes both roles across the scenario list; the statically possible `listener == nil while reloading` branch of the main loop is offered only in the scenarios marked +relisten")
 			r.Assume("signals are delivered like os/signal does (non-blocking send into the 1-slot channel); a signal raised while the previous one is still in the channel is not modelled (the runtime drops it)")
